@@ -1,136 +1,159 @@
-import BPT.Core.Tree
-/- spike: ItemIterator over a raw leaf arena, walking the chain with fuel -/
+import BPT.Rust.Readers1
+/-
+  ItemIterator over a raw map: from a state *positioned* on a chain of stored
+  leaves with `R` remaining, one `next()` returns the head of `R` (or stops at
+  the end bound) and stays positioned on the tail.
+-/
 namespace BPT.Rust
-open BPT
-variable {K V : Type}
+open BPT Tree RawMap
+variable {K V : Type} [Keyed K]
 
-def nullId' : Nat := 4294967295
+/-- the leaves `L` are stored in `m` and linked in this order; the second index is the id of the first one -/
+inductive RawChain (m : RawMap K V) (cap : Nat) : List (Leaf K V) → Nat → Prop where
+  | nil : RawChain m cap [] nullId
+  | cons (l : Leaf K V) (rest : List (Leaf K V)) (nxt : Nat) :
+      m.getLeaf l.id = some (leafToRaw cap l) → l.keys.length = l.vals.length → l.id ≠ nullId → l.next = nxt →
+      RawChain m cap rest nxt → RawChain m cap (l :: rest) l.id
 
-structure RLeaf (K V : Type) where
-  keys : List K
-  vals : List V
-  next : Nat
-
-/-- iterator state: cached leaf (the `&LeafNode`) and index; `none` = terminal -/
-structure ItState (K V : Type) where
-  leaf : Option (RLeaf K V)
-  idx : Nat
-
-/-- one `next()` call: `get` is `tree.get_leaf`; fuel bounds the leaf-skipping loop -/
-def itemNext (get : Nat → Option (RLeaf K V)) : Nat → ItState K V → Option (Option (K × V) × ItState K V)
-  | 0, _ => none                                        -- diverge
-  | f+1, st =>
-    match st.leaf with
-    | none => some (none, st)
-    | some lf =>
-      if st.idx < lf.keys.length then
-        match lf.keys[st.idx]?, lf.vals[st.idx]? with
-        | some k, some v => some (some (k, v), { st with idx := st.idx + 1 })
-        | _, _ => some (none, { leaf := none, idx := st.idx })
-      else if lf.next = nullId' then some (none, { leaf := none, idx := st.idx })
-      else match get lf.next with
-        | none => some (none, { leaf := none, idx := 0 })
-        | some lf' => itemNext get f { leaf := some lf', idx := 0 }
-
-/-- drain the iterator: at most `n` items, `fuel` per call -/
-def collect (get : Nat → Option (RLeaf K V)) (fuel : Nat) : Nat → ItState K V → Option (List (K × V))
-  | 0, _ => some []
-  | n+1, st =>
-    match itemNext get fuel st with
-    | none => none
-    | some (none, _) => some []
-    | some (some kv, st') => (collect get fuel n st').map (kv :: ·)
-
-/-- a chain: leaves with their ids, each reachable through `get`, linked in order, ending in null -/
-inductive IsChain (get : Nat → Option (RLeaf K V)) : List (Nat × RLeaf K V) → Nat → Prop
-  | nil : IsChain get [] nullId'
-  | cons (id : Nat) (lf : RLeaf K V) (rest : List (Nat × RLeaf K V)) (nxt : Nat) :
-      get id = some lf → lf.keys.length = lf.vals.length → id ≠ nullId' → lf.next = nxt → IsChain get rest nxt →
-      IsChain get ((id, lf) :: rest) id
-
-def entriesOf (lf : RLeaf K V) : List (K × V) := lf.keys.zip lf.vals
-
-theorem zip_drop_cons (ks : List K) (vs : List V) (i : Nat) (hi : i < ks.length) (hl : ks.length = vs.length) :
+theorem zip_drop_cons {α β : Type} (ks : List α) (vs : List β) (i : Nat) (hi : i < ks.length) (hl : ks.length = vs.length) :
     (ks.zip vs).drop i = (ks[i], vs[i]'(by omega)) :: (ks.zip vs).drop (i+1) := by
   have : i < (ks.zip vs).length := by simp; omega
   rw [List.drop_eq_getElem_cons this]
   simp
 
-theorem itemNext_inside (get : Nat → Option (RLeaf K V)) (f : Nat) (lf : RLeaf K V) (idx : Nat)
-    (hl : lf.keys.length = lf.vals.length) (hi : idx < lf.keys.length) :
-    itemNext get (f+1) { leaf := some lf, idx := idx } =
-      some (some (lf.keys[idx], lf.vals[idx]'(by omega)), { leaf := some lf, idx := idx + 1 }) := by
-  have hv : idx < lf.vals.length := by omega
-  simp [itemNext, hi, List.getElem?_eq_getElem hi, List.getElem?_eq_getElem hv]
+/-- iterator state `st` is positioned so that exactly `R` remains, with `n` leaves still ahead -/
+inductive Pos (m : RawMap K V) (cap : Nat) : ItState K V → List (K × V) → Nat → Prop where
+  | done (st : ItState K V) (n : Nat) : st.leaf = none → Pos m cap st [] n
+  | at (st : ItState K V) (l : Leaf K V) (rest : List (Leaf K V)) (nxt n : Nat) :
+      st.leaf = some (leafToRaw cap l) → l.keys.length = l.vals.length → RawChain m cap rest nxt → l.next = nxt →
+      st.idx ≤ l.keys.length → rest.length = n →
+      Pos m cap st (l.entries.drop st.idx ++ rest.flatMap Leaf.entries) n
 
-/-- "iterator state `st` is positioned so that exactly `R` remains", with `m` leaves still ahead -/
-inductive Pos (get : Nat → Option (RLeaf K V)) : ItState K V → List (K × V) → Nat → Prop
-  | done (i m : Nat) : Pos get { leaf := none, idx := i } [] m
-  | at (lf : RLeaf K V) (idx : Nat) (rest : List (Nat × RLeaf K V)) (nxt m : Nat) :
-      lf.keys.length = lf.vals.length → IsChain get rest nxt → lf.next = nxt → idx ≤ lf.keys.length → rest.length = m →
-      Pos get { leaf := some lf, idx := idx } ((entriesOf lf).drop idx ++ rest.flatMap (fun p => entriesOf p.2)) m
+/-- end-bound fields are never changed by `next()` -/
+def sameEnd (a b : ItState K V) : Prop := a.endKey = b.endKey ∧ a.endBound = b.endBound ∧ a.endIncl = b.endIncl
 
-/-- one `next()` call from a positioned state returns the head of what remains and stays positioned -/
-theorem itemNext_pos (get : Nat → Option (RLeaf K V)) :
-    ∀ (m : Nat) (st : ItState K V) (R : List (K × V)) (fuel : Nat), Pos get st R m → m + 1 ≤ fuel →
-      ∃ st' m', itemNext get fuel st = some (R.head?, st') ∧ Pos get st' R.tail m' ∧ m' ≤ m := by
-  intro m
-  induction m with
+theorem beyondEnd_congr (cfg : Cfg) (a b : ItState K V) (h : sameEnd a b) (k : K) : beyondEnd cfg a k = beyondEnd cfg b k := by
+  unfold beyondEnd; rw [h.1, h.2.1, h.2.2]
+
+/-- one `next()` call from a positioned state -/
+theorem itemNext_pos (cfg : Cfg) (m : RawMap K V) (cap : Nat) :
+    ∀ (n : Nat) (st : ItState K V) (R : List (K × V)) (fuel : Nat), Pos m cap st R n → n + 1 ≤ fuel →
+      ∃ out st', itemNext cfg m fuel st = .ok (out, st') ∧ sameEnd st' st ∧
+        match R with
+        | [] => out = none ∧ Pos m cap st' [] 0
+        | kv :: R' =>
+          if beyondEnd cfg st kv.1 then out = none ∧ st'.leaf = none
+          else out = some kv ∧ ∃ n', Pos m cap st' R' n' ∧ n' ≤ n := by
+  intro n
+  induction n with
   | zero =>
     intro st R fuel hp hf
-    cases fuel with
-    | zero => omega
-    | succ f =>
-      cases hp with
-      | done i => exact ⟨_, 0, by simp [itemNext], Pos.done i 0, Nat.le_refl _⟩
-      | «at» lf idx rest nxt _ hl hch hnx hidx hm =>
-        have hrest : rest = [] := List.eq_nil_of_length_eq_zero hm
-        subst hrest
-        by_cases hi : idx < lf.keys.length
-        · refine ⟨{ leaf := some lf, idx := idx + 1 }, 0, ?_, ?_, Nat.le_refl _⟩
-          · rw [itemNext_inside get f lf idx hl hi]
-            simp only [entriesOf, List.flatMap_nil, List.append_nil]
-            rw [zip_drop_cons _ _ _ hi hl]; rfl
-          · have := Pos.at (get := get) lf (idx+1) [] nxt 0 hl hch hnx (by omega) rfl
-            simp only [entriesOf, List.flatMap_nil, List.append_nil] at this ⊢
-            rw [zip_drop_cons _ _ _ hi hl]
+    obtain ⟨f, rfl⟩ : ∃ f, fuel = f + 1 := ⟨fuel - 1, by omega⟩
+    rcases hp with ⟨_, hnone⟩ | ⟨l, rest, nxt, _, hleaf, hl, hch, hnx, hidx, hm⟩
+    · exact ⟨none, st, by simp [itemNext, hnone], ⟨rfl, rfl, rfl⟩, rfl, Pos.done _ _ hnone⟩
+    · have hrest : rest = [] := List.eq_nil_of_length_eq_zero hm
+      subst hrest
+      by_cases hi : st.idx < l.keys.length
+      · have hv : st.idx < l.vals.length := by omega
+        have hR : l.entries.drop st.idx ++ ([] : List (Leaf K V)).flatMap Leaf.entries =
+            (l.keys[st.idx], l.vals[st.idx]) :: l.entries.drop (st.idx+1) := by
+          simp only [List.flatMap_nil, List.append_nil, Leaf.entries]
+          exact zip_drop_cons _ _ _ hi hl
+        rw [hR]
+        have hguard : (if cfg.guardBoth = true then decide (st.idx < (leafToRaw cap l).keys.length ∧ st.idx < (leafToRaw cap l).vals.length)
+            else decide (st.idx < (leafToRaw cap l).keys.length)) = true := by
+          simp only [leafToRaw]; split <;> simp [hi, hv]
+        by_cases hb : beyondEnd cfg st l.keys[st.idx] = true
+        · refine ⟨none, { st with leaf := none }, ?_, ⟨rfl, rfl, rfl⟩, ?_⟩
+          · unfold itemNext
+            simp only [hleaf, hguard, if_true]
+            simp only [leafToRaw, List.getElem?_eq_getElem hi, List.getElem?_eq_getElem hv, hb, if_true]
+          · show (if beyondEnd cfg st _ = true then _ else _)
+            rw [if_pos hb]; exact ⟨rfl, rfl⟩
+        · refine ⟨some (l.keys[st.idx], l.vals[st.idx]), { st with idx := st.idx + 1 }, ?_, ⟨rfl, rfl, rfl⟩, ?_⟩
+          · unfold itemNext
+            simp only [hleaf, hguard, if_true]
+            simp only [leafToRaw, List.getElem?_eq_getElem hi, List.getElem?_eq_getElem hv, hb]
+            rfl
+          · show (if beyondEnd cfg st _ = true then _ else _)
+            rw [if_neg hb]
+            refine ⟨rfl, 0, ?_, Nat.le_refl _⟩
+            have := Pos.at (m := m) (cap := cap) { st with idx := st.idx + 1 } l [] nxt 0 hleaf hl hch hnx (by show st.idx + 1 ≤ _; omega) rfl
             simpa using this
-        · have hnull : lf.next = nullId' := by cases hch; exact hnx
-          have hdrop : (entriesOf lf).drop idx = [] := by
-            apply List.drop_eq_nil_of_le; simp [entriesOf]; omega
-          refine ⟨{ leaf := none, idx := idx }, 0, ?_, ?_, Nat.le_refl _⟩
-          · simp [itemNext, hi, hnull, hdrop]
-          · simp only [hdrop, List.flatMap_nil, List.append_nil, List.tail_nil]
-            exact Pos.done idx 0
-  | succ m ih =>
+      · have hnull : l.next = nullId := by cases hch; exact hnx
+        have hdrop : l.entries.drop st.idx = [] := by
+          apply List.drop_eq_nil_of_le; simp [Leaf.entries]; omega
+        have hguard : (if cfg.guardBoth = true then decide (st.idx < (leafToRaw cap l).keys.length ∧ st.idx < (leafToRaw cap l).vals.length)
+            else decide (st.idx < (leafToRaw cap l).keys.length)) = false := by
+          simp only [leafToRaw]; split <;> simp [hi]
+        refine ⟨none, { st with leaf := none }, ?_, ⟨rfl, rfl, rfl⟩, ?_⟩
+        · unfold itemNext
+          simp only [hleaf, hguard, Bool.false_eq_true, if_false]
+          simp [leafToRaw, hnull]
+        · rw [hdrop]
+          exact ⟨rfl, Pos.done _ _ rfl⟩
+  | succ n ih =>
     intro st R fuel hp hf
-    cases fuel with
-    | zero => omega
-    | succ f =>
-      cases hp with
-      | done i => exact ⟨_, 0, by simp [itemNext], Pos.done i 0, Nat.zero_le _⟩
-      | «at» lf idx rest nxt _ hl hch hnx hidx hm =>
-        by_cases hi : idx < lf.keys.length
-        · refine ⟨{ leaf := some lf, idx := idx + 1 }, m+1, ?_, ?_, Nat.le_refl _⟩
-          · rw [itemNext_inside get f lf idx hl hi]
-            simp only [entriesOf]
-            rw [zip_drop_cons _ _ _ hi hl]; rfl
-          · have := Pos.at (get := get) lf (idx+1) rest nxt (m+1) hl hch hnx (by omega) hm
-            simp only [entriesOf] at this ⊢
-            rw [zip_drop_cons _ _ _ hi hl]
-            simpa using this
-        · -- end of this leaf: move on to the next one in the chain
-          have hdrop : (entriesOf lf).drop idx = [] := by
-            apply List.drop_eq_nil_of_le; simp [entriesOf]; omega
-          cases hch with
-          | nil => simp at hm
-          | cons id' lf' rest' nxt2 hget hl' hne hnx2 hrest =>
-            have hstep : itemNext get (f+1) { leaf := some lf, idx := idx } = itemNext get f { leaf := some lf', idx := 0 } := by
-              simp [itemNext, hi, hnx, hne, hget]
-            have hlen : rest'.length = m := by simpa using hm
-            have hp' := Pos.at (get := get) lf' 0 rest' nxt2 m hl' hrest hnx2 (Nat.zero_le _) hlen
-            obtain ⟨st', m', he, hp'', hm'⟩ := ih _ _ f hp' (by omega)
-            refine ⟨st', m', ?_, ?_, by omega⟩
-            · rw [hstep, he]; simp [hdrop]
-            · simpa [hdrop] using hp''
+    obtain ⟨f, rfl⟩ : ∃ f, fuel = f + 1 := ⟨fuel - 1, by omega⟩
+    rcases hp with ⟨_, hnone⟩ | ⟨l, rest, nxt, _, hleaf, hl, hch, hnx, hidx, hm⟩
+    · exact ⟨none, st, by simp [itemNext, hnone], ⟨rfl, rfl, rfl⟩, rfl, Pos.done _ _ hnone⟩
+    · by_cases hi : st.idx < l.keys.length
+      · have hv : st.idx < l.vals.length := by omega
+        have hR : l.entries.drop st.idx ++ rest.flatMap Leaf.entries =
+            (l.keys[st.idx], l.vals[st.idx]) :: (l.entries.drop (st.idx+1) ++ rest.flatMap Leaf.entries) := by
+          simp only [Leaf.entries]
+          rw [zip_drop_cons _ _ _ hi hl]; rfl
+        rw [hR]
+        have hguard : (if cfg.guardBoth = true then decide (st.idx < (leafToRaw cap l).keys.length ∧ st.idx < (leafToRaw cap l).vals.length)
+            else decide (st.idx < (leafToRaw cap l).keys.length)) = true := by
+          simp only [leafToRaw]; split <;> simp [hi, hv]
+        by_cases hb : beyondEnd cfg st l.keys[st.idx] = true
+        · refine ⟨none, { st with leaf := none }, ?_, ⟨rfl, rfl, rfl⟩, ?_⟩
+          · unfold itemNext
+            simp only [hleaf, hguard, if_true]
+            simp only [leafToRaw, List.getElem?_eq_getElem hi, List.getElem?_eq_getElem hv, hb, if_true]
+          · show (if beyondEnd cfg st _ = true then _ else _)
+            rw [if_pos hb]; exact ⟨rfl, rfl⟩
+        · refine ⟨some (l.keys[st.idx], l.vals[st.idx]), { st with idx := st.idx + 1 }, ?_, ⟨rfl, rfl, rfl⟩, ?_⟩
+          · unfold itemNext
+            simp only [hleaf, hguard, if_true]
+            simp only [leafToRaw, List.getElem?_eq_getElem hi, List.getElem?_eq_getElem hv, hb]
+            rfl
+          · show (if beyondEnd cfg st _ = true then _ else _)
+            rw [if_neg hb]
+            refine ⟨rfl, n+1, ?_, Nat.le_refl _⟩
+            exact Pos.at (m := m) (cap := cap) { st with idx := st.idx + 1 } l rest nxt (n+1) hleaf hl hch hnx (by show st.idx + 1 ≤ _; omega) hm
+      · -- end of this leaf: move on to the next one in the chain
+        have hdrop : l.entries.drop st.idx = [] := by
+          apply List.drop_eq_nil_of_le; simp [Leaf.entries]; omega
+        have hguard : (if cfg.guardBoth = true then decide (st.idx < (leafToRaw cap l).keys.length ∧ st.idx < (leafToRaw cap l).vals.length)
+            else decide (st.idx < (leafToRaw cap l).keys.length)) = false := by
+          simp only [leafToRaw]; split <;> simp [hi]
+        cases hch with
+        | nil => simp at hm
+        | cons l' rest' nxt2 hget hl' hne hnx2 hrest =>
+          have hstep : itemNext cfg m (f+1) st = itemNext cfg m f { st with leaf := some (leafToRaw cap l'), idx := 0 } := by
+            conv => lhs; unfold itemNext
+            simp only [hleaf, hguard, Bool.false_eq_true, if_false]
+            simp only [leafToRaw] at hget ⊢
+            simp [hnx, hne, hget]
+          have hlen : rest'.length = n := by simpa using hm
+          have hp' := Pos.at (m := m) (cap := cap) { st with leaf := some (leafToRaw cap l'), idx := 0 } l' rest' nxt2 n rfl hl' hrest hnx2 (Nat.zero_le _) hlen
+          obtain ⟨out, st', he, hse, hres⟩ := ih _ _ f hp' (by omega)
+          refine ⟨out, st', by rw [hstep, he], ⟨hse.1, hse.2.1, hse.2.2⟩, ?_⟩
+          simp only [hdrop, List.nil_append, List.flatMap_cons, List.drop_zero] at hres ⊢
+          cases hR : l'.entries ++ rest'.flatMap Leaf.entries with
+          | nil => rw [hR] at hres; exact hres
+          | cons kv R' =>
+            rw [hR] at hres
+            have hbe : beyondEnd cfg ({ st with leaf := some (leafToRaw cap l'), idx := 0 } : ItState K V) kv.1 = beyondEnd cfg st kv.1 :=
+              beyondEnd_congr cfg _ _ ⟨rfl, rfl, rfl⟩ kv.1
+            simp only [hbe] at hres
+            show (if beyondEnd cfg st kv.1 = true then _ else _)
+            by_cases hb : beyondEnd cfg st kv.1 = true
+            · rw [if_pos hb] at hres ⊢; exact hres
+            · rw [if_neg hb] at hres ⊢
+              obtain ⟨h1, n', h2, h3⟩ := hres
+              exact ⟨h1, n', h2, by omega⟩
+
 end BPT.Rust
